@@ -86,6 +86,11 @@ def _run_one(args):
     if overlay is None:
         return (v.name, "skipped", "")
     res = run_rules(prop, Repo(root, overlay=overlay))
+    # violations listed as known findings are not news: neither a detection nor a false alarm
+    from ..report import load_known
+
+    known = {(k.rule, k.construct) for k in load_known() if k.prop == prop}
+    res.obligations = [o for o in res.obligations if not (o.ok is False and (o.rule, o.construct) in known)]
     if v.rule is not None:  # mutant
         if res.error and not res.violations:
             return (v.name, "missed", f"analysis error instead of a violation: {res.error[:200]}")
